@@ -124,6 +124,7 @@ def check(ctx, rep, cfg):
     guard_pages(rep, prog, ws, tag)
     lock_extent(rep, prog, tag)
     drop_discipline(rep, prog, tag)
+    record_discipline(rep, prog, tag)
 
 
 def transitions(rep, prog, ws, tag):
@@ -443,3 +444,41 @@ def drop_discipline(rep, prog, tag):
     rep.ob("DROP-DISCIPLINE", "no crate function drops a region's storage record" + tag, not bad,
            "%d functions handle InternalData; drops outside Protected::drop: %s" % (n, [(f.path[:60], f.loc(b)) for f, b, _ in bad][:4]),
            loc=bad[0][0].loc(bad[0][1]) if bad else None)
+
+
+def record_discipline(rep, prog, tag):
+    """The runtime record (storage, lock mode, protect mode) is created only for fresh storage, as
+    (Unlocked, ReadWrite) -- which is what the allocator hands out -- and is never duplicated: cloning a
+    record would attach a ReadOnly/NoAccess/Locked claim to freshly allocated read-write, unlocked pages.
+    Every other mode is reached through a transition (MODE rule)."""
+    from ..expr import expr_of_operand, deep_repr
+    n_rec = 0
+    for f in prog.fns:
+        imp = prog.fn_impl(f)
+        own_clone = bool(imp and imp.get("trait") == "std::clone::Clone" and imp["self_ty"].get("path") == "protected::int::InternalData")
+        for b, i, st in f.assigns():
+            if own_clone:
+                break   # the record's derived Clone impl itself; *calling* it is what the rule forbids (below)
+            rv = st["rv"]
+            if rv["k"] == "agg" and rv.get("agg") == "adt" and rv.get("path") == "protected::int::InternalData":
+                n_rec += 1
+                fields = dict(zip(rv.get("fields", []), rv["ops"]))
+                txt = {k: deep_repr(expr_of_operand(f, v)) for k, v in fields.items()}
+                ok = txt.get("lm", "").endswith("Unlocked{}") and txt.get("pm", "").endswith("ReadWrite{}")
+                rep.ob("RECORD", "%s|record created as (Unlocked, ReadWrite)%s" % (f.path, tag), ok,
+                       "InternalData literal with lm=%s pm=%s" % (txt.get("lm"), txt.get("pm")), loc="%s:%s" % (f.file, _ln(st)))
+        for c in f.calls():
+            if f.blocks[c.bb]["cleanup"]:
+                continue
+            if c.path == "std::clone::Clone::clone" and "InternalData<" in (c.f.get("self_ty") or c.full):
+                rep.violation("RECORD", "%s|record cloned%s" % (f.path, tag),
+                              "the storage record (with its recorded lock/protect mode) is cloned: %s; the copy's pages are fresh "
+                              "(read-write, unlocked) whatever the record says" % c.full[:90], loc=c.loc())
+            if c.path in ("std::mem::replace", "std::mem::take") and "InternalData<" in c.full:
+                rep.violation("RECORD", "%s|record moved out%s" % (f.path, tag), "record moved out of its handle by %s" % c.path, loc=c.loc())
+    rep.ob("RECORD", "record literals exist" + tag, n_rec >= 1, "%d InternalData literal(s) in the crate" % n_rec)
+
+
+def _ln(st):
+    ln = st.get("ln")
+    return ln[0] if isinstance(ln, list) else ln
